@@ -4,7 +4,8 @@ From MM Require Import Model.RouteTable Model.RouteTableSource Proofs.RouteTable
 Import ListNotations.
 Local Open Scope N_scope.
 
-(** For every history [ops] of manager operations (route advertisements and
+(** For every sorting function [srt] that returns a metric-sorted permutation
+    ([sorter_ok], see the end of this file), every history [ops] of manager operations (route advertisements and
     withdrawals, peer disconnects, stale-route cleanups, local and dynamic
     route additions and removals, raw table additions/removals, clock ticks,
     and operations on the other three tables), applied from the empty manager
@@ -18,6 +19,7 @@ Local Open Scope N_scope.
       length, a metric no lower than r's;
     - or nothing, and then no stored route's network contains [ad].
 
+    [run local srt ops]: the manager state after the history (C08_run_meaning).
     [route_in t x]: x is an element of some bucket of table t.
     [contains p ad]: same family and the same leading [p_len p] bits
     (lemma C08_contains_meaning). *)
@@ -58,6 +60,16 @@ Theorem C08_stored_networks_canonical : forall (local : N) (srt : sorter), sorte
   p_len (e_data x) <= fbits (p_fam (e_data x)).
 Proof. exact stored_canonical. Qed.
 Print Assumptions C08_stored_networks_canonical.
+
+(** the state after a history, and membership in a table, spelled out *)
+Theorem C08_run_meaning : forall (local : N) (srt : sorter),
+  run local srt [] = mgr_init /\
+  forall ops o, run local srt (ops ++ [o]) = fst (fst (step local srt (run local srt ops) o)).
+Proof. exact run_meaning. Qed.
+
+Theorem C08_route_in_meaning : forall {K D} (t : table K D) (x : entry D),
+  route_in t x <-> exists k b, In (k, b) t /\ In x b.
+Proof. exact @route_in_meaning. Qed.
 
 (** what [contains] means arithmetically *)
 Theorem C08_contains_meaning : forall p f a,
